@@ -272,7 +272,7 @@ func checkDeliveriesByIdentity(env *Env, ops []*OpRec, skip map[string]bool) []V
 	gotTimers := map[string]map[int64]int{}
 	lastGauge := map[string]uint64{}
 	for _, d := range env.Deliveries() {
-		if env.isInternal(d.Name) {
+		if env.isInternalID(d.Name, d.Tags) {
 			continue
 		}
 		id := idKey(d.Name, d.Tags)
